@@ -600,6 +600,28 @@ func TestC06Blocked(t *testing.T) {
 			}
 			time.Sleep(20 * time.Microsecond)
 		}
+		// the client may answer the moment the backend's bytes are on the wire, i.e. before
+		// the Write that carried them has returned to the backend's relay
+		early := rapid.Bool().Draw(t, "client_answers_before_write_returns")
+		var r rres
+		gotEarly, fired := false, false
+		if early {
+			tr.OnWrite = func(total int) {
+				if total < len(bw) || fired {
+					return
+				}
+				fired = true // only the write that completes the backend's answer triggers the client
+				if ccs {
+					tr.Feed(hello.Record(20, 0x0303, []byte{1}))
+				}
+				tr.Feed(hello2)
+				select {
+				case r = <-done:
+					gotEarly = true
+				case <-time.After(30 * time.Second):
+				}
+			}
+		}
 		prev := 0
 		for _, k := range append(cutsW, len(bw)) {
 			if k <= prev {
@@ -610,15 +632,19 @@ func TestC06Blocked(t *testing.T) {
 			}
 			prev = k
 		}
-		if ccs {
-			tr.Feed(hello.Record(20, 0x0303, []byte{1}))
+		tr.OnWrite = nil
+		if !early {
+			if ccs {
+				tr.Feed(hello.Record(20, 0x0303, []byte{1}))
+			}
+			tr.Feed(hello2)
 		}
-		tr.Feed(hello2)
-		var r rres
-		select {
-		case r = <-done:
-		case <-time.After(30 * time.Second):
-			t.Fatalf("harness: reader did not return within 30 s")
+		if !gotEarly {
+			select {
+			case r = <-done:
+			case <-time.After(30 * time.Second):
+				t.Fatalf("harness: reader did not return within 30 s")
+			}
 		}
 		if isPanic(r.err) {
 			ev.Violation(t, "C06", rp, "panic in Read: %v", r.err)
@@ -648,7 +674,7 @@ func TestC06Blocked(t *testing.T) {
 				ev.Violation(t, "C06", rp, "no HelloRetryRequest was written: the second hello must be forwarded unchanged (err=%v)", r.err)
 			}
 		}
-		rec.Case(fmt.Sprintf("blocked|%s|%s|%v|%d", answer, second, ccs, pieces), answer == "hrr", []string{"reader_blocked_before_answer", "blocked:" + answer + ":" + second}, func() any {
+		rec.Case(fmt.Sprintf("blocked|%s|%s|%v|%d", answer, second, ccs, pieces), answer == "hrr", []string{"reader_blocked_before_answer", "blocked:" + answer + ":" + second, fmt.Sprintf("client_answers_before_write_returns:%v", early)}, func() any {
 			return map[string]any{"kind": "reader_blocked_before_answer", "answer": answer, "second": second, "ccs": ccs, "pieces": pieces}
 		})
 	})
